@@ -112,13 +112,45 @@ pub fn c03_idempotent(input: &str, cfg: &Cfg) -> Vec<String> {
     }
 }
 
-pub fn c07_regions(input: &str, cfg: &Cfg) -> Vec<String> {
+pub fn c07_regions(input: &str, cfg: &Cfg, well_formed: bool) -> Vec<String> {
     let out = fmt(input, cfg);
     let toks = lex_offsets(input);
     let regions = verbatim_regions(input, &toks);
     let mut fails = vec![];
-    // asm bodies: from the end of the `asm` keyword to the end of the last token before the closing `end`
-    {
+    // In token soup an `asm` keyword can sit where no block can start (inside a parameter list, in the middle of an
+    // expression); there the lexer switches to assembler text but there is no `asm ... end` block. For such inputs the
+    // blocks are the ones the parser recognises (lines typed AsmInstruction); for well-formed programs the purely
+    // lexical criterion below is used, which does not depend on the parser.
+    if !well_formed {
+        let snap = crate::stages::run_stages(input, cfg, &[]);
+        let mut offs = Vec::with_capacity(snap.raw.len());
+        let mut o = 0usize;
+        for (ws, c, _) in &snap.raw {
+            offs.push((o + ws.len(), o + ws.len() + c.len()));
+            o += ws.len() + c.len();
+        }
+        let mut from = 0usize;
+        for l in snap.parser_lines.iter().filter(|l| l.line_type == "AsmInstruction") {
+            // maximal runs of consecutive token indices (conditional directives inside the block are lines of their own)
+            let mut k = 0;
+            while k < l.tokens.len() {
+                let mut e = k;
+                while e + 1 < l.tokens.len() && l.tokens[e + 1] == l.tokens[e] + 1 {
+                    e += 1;
+                }
+                let (a, b) = (l.tokens[k], l.tokens[e]);
+                k = e + 1;
+                if a >= offs.len() || b >= offs.len() {
+                    continue;
+                }
+                let body = &input[offs[a].0..offs[b].1];
+                match out[from..].find(body) {
+                    Some(p) => from += p + body.len(),
+                    None => fails.push("c07: an instruction line of an asm block is not reproduced byte for byte".to_string()),
+                }
+            }
+        }
+    } else {
         let mut i = 0;
         let mut from = 0usize;
         while i < toks.len() {
